@@ -90,6 +90,22 @@ PlusExtraAt(j) ==
         seq == SubSeq(s, 1, at) \o <<x>> \o SubSeq(s, at + 1, Len(s))
     IN  TItem("domain_wellformed_plus_one", DedupDomainDoc(seq))
   ELSE TItem("domain_wellformed_plus_one", DedupDomainDoc(Subseqs[j - 31 * 6 * Len(ExtraChoices)] \o <<11, 11>>))
+\* domain members whose NAME or TYPE text contains the separators of encodeType (comma, blank, parentheses) so that one
+\* ill-formed member reads like several well-formed ones when the type is taken apart as text
+SepMembers == <<
+  <<"name,string version", "string">>, <<"name", "string name,string">>, <<"version", "string name,string">>, <<"chainId", "string name,uint256">>,
+  <<"name) EIP712Domain(string version", "string">>, <<"name", "string)">>, <<"name version", "string">>, <<"name,uint256 chainId", "string">>,
+  <<"salt", "string name,bytes32">>, <<"name", "string,string">>, <<",name", "string">>, <<"name,", "string">>, <<"name", ",string">> >>
+NSepMembers == 2 * Len(SepMembers)
+SepMemberAt(j) ==
+  LET sm == SepMembers[1 + ((j - 1) % Len(SepMembers))]
+      \* the odd type name is also DEFINED as a memberless struct in the second half (so that only the domain rule refuses)
+      def == j > Len(SepMembers)
+      val == IF def /\ sm[2] \notin {"string"} THEN NObj(<<>>) ELSE NStr("App")
+  IN  TItem("domain_separators_in_names",
+            Doc(<< <<"EIP712Domain", TypeDef(<<Member(sm[1], sm[2])>>)>>, <<"M", TypeDef(<<Member("x", "uint256")>>)>> >>
+                \o (IF def /\ sm[2] # "string" THEN << <<sm[2], TypeDef(<<>>)>> >> ELSE <<>>),
+                "M", NObj(<< <<sm[1], val>> >>), NObj(<< <<"x", NNum("7")>> >>)))
 NLongSeqs == IF Thorough THEN 20000 ELSE 300
 LongSeqAt(j) ==
   LET len == 4 + PrngNat(K("dl", <<j>>), 4)
